@@ -75,7 +75,8 @@ pub struct Replace<T> {
 impl Replace<MetaVariable> {
   fn compute<D: Doc>(&self, ctx: &mut Ctx<D>) -> Option<String> {
     let text = get_text_from_env(&self.source, ctx)?;
-    let re = Regex::new(&self.replace).unwrap();
+    // an invalid regex must not bring the scan down: the transformation yields nothing
+    let re = Regex::new(&self.replace).ok()?;
     Some(re.replace_all(&text, &self.by).into_owned())
   }
 }
